@@ -1,5 +1,5 @@
 """C01 - print o parse = identity (XML, JSON, LYB)"""
-from props import comps, comps_json, comps_lyb, oracles
+from props import comps, comps_doc, comps_json, comps_lyb, oracles
 
 PID = "C01"
 LEVEL = "proof"
@@ -7,11 +7,12 @@ LEVEL = "proof"
 
 def components():
     return [comps.Utf8(), comps.XmlEsc(), comps.XmlVal(), comps_json.JsonEsc(), comps_json.JsonStr(),
-            comps_lyb.LybWrite(), comps_lyb.LybRoundTrip(), comps_lyb.LybRead(), comps_lyb.LybHashGen(), comps_lyb.LybSiblings()]
+            comps_lyb.LybWrite(), comps_lyb.LybRoundTrip(), comps_lyb.LybRead(), comps_lyb.LybHashGen(), comps_lyb.LybSiblings(),
+            comps_doc.DocModel()]
 
 
 def oracles_():
-    return [oracles.RoundTrip()]
+    return [oracles.RoundTrip(), comps_doc.RoundTripX(), comps_doc.RoundTripMeta()]
 
 MANIFEST = {
     "text": "Coq theorems: (XML) the text printer/lexer pair is an exact round trip for every string of accepted characters of any "
